@@ -539,8 +539,10 @@ pub fn run_c18(ctx: &Ctx) -> i32 {
                 check_validate_identity(ctx, &mut acc, c, &s, "extra-zero-groups");
                 n += 1;
             }
-            // all-upper-case form: either rejected or returned unchanged is NOT asserted (see DESIGN §3)
-            let _ = catch(|| c.api().addr_validate(&valid.to_ascii_uppercase()));
+            // all-upper-case form: whether it is accepted is not asserted (see DESIGN section 3), but an
+            // accepted string is "returned unchanged" like any other
+            check_validate_identity(ctx, &mut acc, c, &valid.to_ascii_uppercase(), "all-upper-case");
+            n += 1;
             // assorted malformed strings
             for s in ["", "1", c.prefix, &format!("{}1", c.prefix), &format!("{}1qqqqqq", c.prefix), "no-separator", "é1qqqqqq", " "] {
                 check_validate_identity(ctx, &mut acc, c, s, "malformed");
